@@ -261,6 +261,7 @@ func verifHandle(req verifReq) (interface{}, error) {
 		out := verifDumpGraph(g2)
 		out["events"] = verifTypedEvents(compacted)
 		out["ready_order"] = verifIDsOf(readyTasks(g2, "", kindTask))
+		out["prune_targets"] = append([]string{}, selectPruneTargets(g2)...)
 		return out, nil
 	case "ready":
 		events, err := readEvents(verifPathOf(req))
